@@ -466,6 +466,7 @@ func (st *State) step(f *Frame, ins ssa.Instruction) []*State {
 			f.regs[x] = Value{T: x.Type(), S: SRef, Loc: &Loc{Cell: c}}
 		} else {
 			r := st.newObject()
+			st.assume(st.typedRef(r, x.Type()))
 			st.storeMem(r, T, Value{T: T, S: te.SortOf(T), Term: te.Zero(T)})
 			f.regs[x] = Value{T: x.Type(), S: SRef, Term: r}
 		}
@@ -494,6 +495,9 @@ func (st *State) step(f *Frame, ins ssa.Instruction) []*State {
 		st.panicOb(x, "nil", not(eq(base.Term, nilRef)), "nil pointer dereference (field "+fieldName(x)+")")
 		if len(st.eng.cs.TypeInvs) > 0 && st.eng.typeInvFor(x.X.Type()) != nil && !st.eng.typeInvFor(x.X.Type()).isCtor(f.fn) {
 			st.assume(st.typeInvTerm(Value{T: x.X.Type(), S: SRef, Term: base.Term}, st.heap))
+		}
+		if len(st.eng.cs.Guards) > 0 {
+			st.guardCheck(f, x, base.Term)
 		}
 		f.regs[x] = Value{T: x.Type(), S: SRef, Term: st.eng.fsub(base.Term, x.X.Type().Underlying().(*types.Pointer).Elem(), x.Field)}
 	case *ssa.Field:
